@@ -20,6 +20,7 @@ import (
 	"sort"
 	"strings"
 	"sync"
+	"syscall"
 )
 
 const atlasHost = "cloud.mongodb.com"
@@ -36,13 +37,25 @@ const (
 	AnsNetErr  = "neterr"    // transport error (connection reset before any header)
 	AnsCut     = "cut"       // 200, body cut after Cut bytes (connection dropped mid-body)
 	AnsBadDig  = "baddigest" // 401 with a malformed Digest challenge
+	// several challenges in one 401 (RFC 7235 allows it); the client library looks at the first one
+	AnsDigestBasic = "digest+basic" // unauthenticated: 401 offering Digest, then Basic
+	AnsBasicDigest = "basic+digest" // unauthenticated: 401 offering Basic, then Digest
+	Ans401Offer    = "401+offer"    // authenticated: 401 that offers a fresh Digest challenge and Basic (a gateway that refuses the digest response)
+	Ans401Basic    = "401+basic"    // authenticated: 401 that offers Basic only
+	// what a REPEATED request for a resource gets (a conforming client never repeats one)
+	RetrySame = ""        // the same answer as the first time
+	RetryFlow = "ok-flow" // the cooperative flow: challenge, then 200 with the complete body
 )
+
+// isChallenge: answers to an unauthenticated request that make the client library send a digest response
+func isChallenge(ans string) bool { return ans == AnsDigest || ans == AnsDigestBasic }
 
 type HostScript struct {
 	Unauth  string `json:"unauth"`
 	Auth    string `json:"auth"`
 	Payload []byte `json:"payload"`
 	Cut     int    `json:"cut"`
+	Retry   string `json:"retry"` // answer to every repeated request (see RetrySame / RetryFlow / an Ans… constant)
 }
 
 type AtlasScript struct {
@@ -51,7 +64,9 @@ type AtlasScript struct {
 	ClusterAuth     string
 	ClusterBody     string
 	ClusterCut      int
+	ClusterRetry    string
 	Hosts           map[string]*HostScript
+	KillAtRequest   int // child mode: the process dies (as if killed) when the request with this 1-based number arrives; 0 = never
 }
 
 type AtlasReq struct {
@@ -73,7 +88,8 @@ type fakeAtlas struct {
 	mu     sync.Mutex
 	script *AtlasScript
 	log    []AtlasReq
-	sink   string // file to append the request log to (child mode)
+	sink   string         // file to append the request log to (child mode)
+	seen   map[string]int // requests per resource and authentication class
 }
 
 const fakeNonce, fakeRealm, fakeOpaque = "Zm9vYmFyMTIzNDU2Nzg5MA==", "MMS Public API", "5ccc069c403ebaf9f0171e9517f40e41"
@@ -147,6 +163,10 @@ func (f *fakeAtlas) RoundTrip(req *http.Request) (*http.Response, error) {
 	ans := AnsNetErr
 	var body []byte
 	cut := -1
+	retry := RetrySame
+	if f.seen == nil {
+		f.seen = map[string]int{}
+	}
 	if req.URL.Host == atlasHost && req.URL.Scheme == "https" {
 		if m := clusterRe.FindStringSubmatch(req.URL.Path); m != nil {
 			rec.Kind = "cluster"
@@ -157,6 +177,7 @@ func (f *fakeAtlas) RoundTrip(req *http.Request) (*http.Response, error) {
 			}
 			body = []byte(f.script.ClusterBody)
 			cut = f.script.ClusterCut
+			retry = f.script.ClusterRetry
 		} else if m := logRe.FindStringSubmatch(req.URL.Path); m != nil {
 			rec.Kind, rec.LogHost = "log", m[2]
 			hs = f.script.Hosts[m[2]]
@@ -168,13 +189,30 @@ func (f *fakeAtlas) RoundTrip(req *http.Request) (*http.Response, error) {
 				} else {
 					ans = hs.Auth
 				}
-				body, cut = hs.Payload, hs.Cut
+				body, cut, retry = hs.Payload, hs.Cut, hs.Retry
 			}
 		} else {
 			rec.Kind, ans = "other", Ans404
 		}
 	} else {
 		rec.Kind = "foreign"
+	}
+	// a repeated request for the same resource (the client tries again after a failure)
+	cls := "u"
+	if rec.Auth != "" {
+		cls = "a"
+	}
+	rkey := rec.Kind + "|" + rec.LogHost + "|" + cls
+	f.seen[rkey]++
+	if f.seen[rkey] > 1 && retry != RetrySame && (rec.Kind == "cluster" || rec.Kind == "log") {
+		switch {
+		case retry == RetryFlow && cls == "u":
+			ans = AnsDigest
+		case retry == RetryFlow:
+			ans = AnsOK
+		default:
+			ans = retry
+		}
 	}
 	if rec.Auth == "digest-bad" || rec.Auth == "other" {
 		ans = Ans401 // a real server refuses a wrong digest
@@ -187,6 +225,16 @@ func (f *fakeAtlas) RoundTrip(req *http.Request) (*http.Response, error) {
 	}
 	rec.Answer = ans
 	f.log = append(f.log, rec)
+	if f.script.KillAtRequest > 0 && len(f.log) == f.script.KillAtRequest && f.sink != "" {
+		// the run is interrupted here: no deferred function, no clean-up code gets to run
+		if fh, err := os.OpenFile(f.sink, os.O_APPEND|os.O_CREATE|os.O_WRONLY, 0o644); err == nil {
+			b, _ := json.Marshal(rec)
+			fh.Write(append(b, '\n'))
+			fh.Close()
+		}
+		syscall.Kill(os.Getpid(), syscall.SIGKILL)
+		select {}
+	}
 	if f.sink != "" {
 		if fh, err := os.OpenFile(f.sink, os.O_APPEND|os.O_CREATE|os.O_WRONLY, 0o644); err == nil {
 			b, _ := json.Marshal(rec)
@@ -210,9 +258,15 @@ func (f *fakeAtlas) RoundTrip(req *http.Request) (*http.Response, error) {
 	case AnsBadDig:
 		b, n := str(`{"error":401}`)
 		return mk(401, http.Header{"Www-Authenticate": {`Digest realm="x", nonce="y", unknownparam="z"`}}, b, n), nil
-	case AnsBasic:
+	case AnsBasic, Ans401Basic:
 		b, n := str(`{"error":401,"reason":"Unauthorized"}`)
 		return mk(401, http.Header{"Www-Authenticate": {`Basic realm="MMS Public API"`}}, b, n), nil
+	case AnsDigestBasic, Ans401Offer:
+		b, n := str(`{"error":401,"reason":"Unauthorized","detail":"You are not authorized for this resource."}`)
+		return mk(401, http.Header{"Www-Authenticate": {fmt.Sprintf(`Digest realm="%s", domain="", nonce="%s", algorithm=MD5, qop="auth", stale=false`, fakeRealm, fakeNonce), `Basic realm="MMS Public API"`}, "Content-Type": {"application/json"}}, b, n), nil
+	case AnsBasicDigest:
+		b, n := str(`{"error":401,"reason":"Unauthorized"}`)
+		return mk(401, http.Header{"Www-Authenticate": {`Basic realm="MMS Public API"`, fmt.Sprintf(`Digest realm="%s", domain="", nonce="%s", algorithm=MD5, qop="auth", stale=false`, fakeRealm, fakeNonce)}}, b, n), nil
 	case Ans401:
 		b, n := str(`{"error":401,"reason":"Unauthorized"}`)
 		return mk(401, nil, b, n), nil
